@@ -269,7 +269,18 @@ func runC20(c *h.Ctx, idx int, events bool) {
 			inc = append(inc, siblingDir, sibling)
 		}
 	}
-	if len(tree.files) > 0 && (r.Chance(25) || idx%7 == 3) {
+	if idx >= 100000 {
+		// many patterns: every file by its own name, and two wildcards on top
+		inc, exc = nil, nil
+		for _, f := range tree.files {
+			inc = append(inc, f)
+		}
+		inc = append(inc, "**/*.log", "*/*.go")
+		if len(tree.files) > 2 {
+			exc = []string{tree.files[idx%len(tree.files)]}
+		}
+	}
+	if len(tree.files) > 0 && idx < 100000 && (r.Chance(25) || idx%7 == 3) {
 		// a file included by its plain name (no wildcard) and excluded by a pattern: the exclusion wins
 		f := tree.files[r.Intn(len(tree.files))]
 		inc = append(inc, f)
@@ -768,6 +779,10 @@ func c20(c *h.Ctx) {
 	}
 	for i := 0; i < nsel; i++ {
 		jobs = append(jobs, job{i, false})
+	}
+	// selection cases with a dozen include patterns each (one per file, plus wildcards): every one of them counts
+	for i := 0; i < c.N(40, 400); i++ {
+		jobs = append(jobs, job{100000 + i, false})
 	}
 	h.Par(len(jobs), 32, func(i int) { runC20(c, jobs[i].idx, jobs[i].ev) })
 }
